@@ -394,5 +394,5 @@ def obligations(tier, build):
         obs.append(Obligation("policy/%s/k=%d" % (cname, K), policy_harness(cname, K), stubs=STUBS,
                               bounds={"history length": K, "operations": ["read", "write", "delete", "add_trait", "remove_trait"],
                                       "names": NAMES[cname]},
-                              leverage="choice feasibility only (concrete names)", max_paths=60000))
+                              leverage="choice feasibility only (concrete names)", max_paths=600000))
     return obs
